@@ -26,7 +26,10 @@ ModelOneCaller ==
   \A m \in Meths : L.mrun[m] = 1 =>
      Cardinality({k \in Callers : D.callers[k].meth = m /\ L.crun[k] = 1}) = 1
 ModelCallerRunsOnlyEnabled == \A k \in Callers : L.crun[k] = 1 => CallerEnabled(k) /\ L.mrun[D.callers[k].meth] = 1
-ModelArgDelivered == \A k \in Callers : L.crun[k] = 1 => L.mdin[D.callers[k].meth] = L.args[D.callers[k].arg]
+\* (Connect.read takes no argument when the connection has no reverse layout)
+ModelArgDelivered == \A k \in Callers :
+  (L.crun[k] = 1 /\ ~(D.kind = "connect" /\ ~D.rev /\ D.callers[k].meth = 2)) =>
+     L.mdin[D.callers[k].meth] = L.args[D.callers[k].arg]
 ModelCallerSees ==
   \A k \in Callers : L.crun[k] = 1 =>
      IF D.kind = "connect"
